@@ -19,7 +19,7 @@ Definition step_ok (S : sets) (o : op) : bool :=
   match o with
   | Add s ds => negb (has_set S s) && set_good ds
   | Update s ds => set_good ds && negb (spec_accepts S s ds && f1_step (get_set S s) ds)
-  | Delete _ => true
+  | Delete _ | Refused _ => true
   end.
 
 Fixpoint ok_from (S : sets) (ops : list op) : bool :=
@@ -123,7 +123,7 @@ Proof.
       split; [exact I'|]. split; [exact R'|]. apply (upd_SInv fx S s ds HS Hg A).
     - destruct (Rej eq_refl) as (e & E). exists st, (Some e). split; [exact E|].
       split; [split; discriminate|]. tauto. }
-  destruct o as [s ds|s ds|s]; simpl in Hok; unfold spec_ok, spec_step.
+  destruct o as [s ds|s ds|s|s]; simpl in Hok; unfold spec_ok, spec_step.
   - apply andb_true_iff in Hok as [Hn Hg]. apply negb_true_iff in Hn.
     rewrite (add_as_update st s ds (no_rules_of _ S s HR (has_set_false_get S s Hn))).
     apply Upd; [exact Hg|]. intros _. rewrite (has_set_false_get S s Hn). apply f1_step_nil.
@@ -131,6 +131,7 @@ Proof.
     intro A. rewrite A in Hf. simpl in Hf. apply negb_true_iff in Hf. exact Hf.
   - destruct (delete_sound st S s HI HR HS) as (st' & E & I' & R' & S').
     exists st', None. split; [exact E|]. split; [tauto|]. split; [congruence|]. tauto.
+  - exists st, (Some ELoad). split; [reflexivity|]. split; [split; discriminate|]. tauto.
 Qed.
 
 (** ** histories *)
@@ -237,9 +238,10 @@ Proof.
   induction ops as [|o ops IH]; intros S G W F; simpl in *; [reflexivity|].
   apply andb_true_iff in W as [W1 W2]. apply orb_false_iff in F as [F1 F2].
   apply andb_true_iff. split.
-  - pose proof (G o (or_introl eq_refl)) as Hg. destruct o as [s ds|s ds|s]; simpl in *.
+  - pose proof (G o (or_introl eq_refl)) as Hg. destruct o as [s ds|s ds|s|s]; simpl in *.
     + rewrite W1, Hg. reflexivity.
     + rewrite Hg, F1. reflexivity.
+    + reflexivity.
     + reflexivity.
   - apply IH; try assumption. intros o' Ho'. apply G. right. exact Ho'.
 Qed.
@@ -278,11 +280,12 @@ Proof. intros W G fa path m. rewrite (history_equals_fresh ops W G). reflexivity
     operation, no guard needed: the work is done on a clone) *)
 Theorem rejected_is_noop (st : repo) o st' e : step st o = (st', Some e) -> st' = st.
 Proof.
-  unfold Model.step, gstep. destruct o as [s ds|s ds|s]; cbv zeta.
+  unfold Model.step, gstep. destruct o as [s ds|s ds|s|s]; cbv zeta.
   - destruct (Model.add_rules db m_add1 (index st) (stamp s ds)); intro H; inversion H; reflexivity.
   - destruct (Model.del_rules db (m_del1 fx) (index st) _); [|intro H; inversion H; reflexivity].
     destruct (Model.add_rules db m_add1 d _); intro H; inversion H; reflexivity.
   - destruct (Model.del_rules db (m_del1 fx) (index st) _); intro H; inversion H; reflexivity.
+  - intro H; inversion H; reflexivity.
 Qed.
 
 Lemma ok_from_app ops o : forall S, ok_from S (ops ++ [o]) = true ->
@@ -389,3 +392,34 @@ Proof.
 Qed.
 
 End Fx.
+
+(** ** the tree as it is now: all three repairs, the guards of the open findings *)
+
+Lemma open_guards_all_fix ops : open_guards ops = false -> no_guard_fx all_fix ops = true.
+Proof.
+  unfold open_guards, no_guard_fx. simpl. rewrite !orb_false_iff. intros [[A B] C]. rewrite A, B, C. reflexivity.
+Qed.
+
+Theorem now_history_equals_fresh ops : wf_history ops = true -> open_guards ops = false ->
+  index (run all_fix ops) = index (fresh all_fix (current ops)).
+Proof. intros W G. apply history_equals_fresh; [exact W | apply open_guards_all_fix; exact G]. Qed.
+
+Theorem now_lookups_equal_fresh ops : wf_history ops = true -> open_guards ops = false ->
+  forall pinned_lookup path m,
+    find_rule pinned_lookup (index (run all_fix ops)) path m =
+    find_rule pinned_lookup (index (fresh all_fix (current ops))) path m.
+Proof. intros W G. apply lookups_equal_fresh; [exact W | apply open_guards_all_fix; exact G]. Qed.
+
+Theorem now_rejected_iff_cannot_apply ops o : wf_history (ops ++ [o]) = true -> open_guards (ops ++ [o]) = false ->
+  exists st' res, step all_fix (run all_fix ops) o = (st', res) /\
+    (res = None <-> spec_ok (current ops) o = true) /\ (res <> None -> st' = run all_fix ops).
+Proof. intros W G. apply rejected_iff_cannot_apply; [exact W | apply open_guards_all_fix; exact G]. Qed.
+
+Theorem now_found_is_current ops : wf_history ops = true -> open_guards ops = false ->
+  forall pinned_lookup path m r, find_rule pinned_lookup (index (run all_fix ops)) path m = Some r ->
+    In (r_def r) (get_set (current ops) (r_src r)).
+Proof. intros W G. apply found_is_current; [exact W | apply open_guards_all_fix; exact G]. Qed.
+
+Theorem now_node_has_one_source ops : wf_history ops = true -> open_guards ops = false ->
+  forall q n x y, get (index (run all_fix ops)) q = Some n -> In x (vals n) -> In y (vals n) -> rt_src x = rt_src y.
+Proof. intros W G. apply node_has_one_source; [exact W | apply open_guards_all_fix; exact G]. Qed.
